@@ -57,6 +57,8 @@ def reward_st(family):
         return st.floats(-1e6, 1e6, allow_nan=False, allow_infinity=False, width=64)
     if family == "Fpos":
         return st.floats(0, 1e6, allow_nan=False, allow_infinity=False, width=64)
+    if family == "D":      # one-decimal rewards: means that agree up to the last bits without being equal
+        return st.integers(0, 10).map(lambda k: k / 10.0)
     if family == "T":      # tiny integer range: equal means and exact ties are common
         return st.integers(0, 2)
     if family == "S":      # small range around the binarizer thresholds
@@ -176,7 +178,8 @@ def np_st(draw, names, arms, prob_ok=True, defaults_ok=False, metrics=None):
         return [name, p]
     if name == "TreeBandit":
         tp = draw(st.sampled_from([{}, {"max_depth": 2}, {"min_samples_leaf": 2}, {"max_depth": 1},
-                                   {"splitter": "random"}, {"max_features": 1}, {"max_leaf_nodes": 3}]))
+                                   {"splitter": "random"}, {"max_features": 1}, {"max_leaf_nodes": 3},
+                                   {"random_state": None, "max_features": 1}, {"random_state": 5, "splitter": "random"}]))
         if defaults_ok and draw(st.integers(0, 2)) == 0:
             return [name, {"_default": True}]
         return [name, {"tree_parameters": dict(tp)}]
